@@ -80,6 +80,10 @@ func (d *Document) Include(res Resource) {
 func MarshalDocument(doc *Document, url *URL) ([]byte, error) {
 	var err error
 
+	// A resource holding a value that cannot be encoded (a time with a
+	// year above 9999, NaN in its meta) has no JSON form.
+	errResource := errors.New("jsonapi: a resource could not be marshaled")
+
 	// Data
 	var data json.RawMessage
 	switch d := doc.Data.(type) {
@@ -90,6 +94,9 @@ func MarshalDocument(doc *Document, url *URL) ([]byte, error) {
 			url.Params.Fields[d.GetType().Name],
 			doc.RelData,
 		)
+		if len(data) == 0 {
+			err = errResource
+		}
 	case Collection:
 		data = MarshalCollection(
 			d,
@@ -97,6 +104,9 @@ func MarshalDocument(doc *Document, url *URL) ([]byte, error) {
 			url.Params.Fields,
 			doc.RelData,
 		)
+		if len(data) == 0 {
+			err = errResource
+		}
 	case Identifier:
 		data, err = json.Marshal(d)
 	case Identifiers:
@@ -137,6 +147,10 @@ func MarshalDocument(doc *Document, url *URL) ([]byte, error) {
 					url.Params.Fields[typ],
 					doc.RelData,
 				)
+				if len(raw) == 0 {
+					return []byte{}, errResource
+				}
+
 				rawm := json.RawMessage(raw)
 				inclusions = append(inclusions, &rawm)
 			}
